@@ -113,6 +113,21 @@ theorem new_version_reprepared (s : State σ ρ) (k : Key) (v : String) (spec : 
   simp only [find_set]
   exact if_neg (Ne.symm hk')
 
+/-- A failed preparation — a non-Ok outcome of the preparer, or the PermFail the cache substitutes when
+    the spec is nested too deeply to copy — is cached under its version exactly like a successful one:
+    lookups return it, and offering the same version again returns that very object without preparing. -/
+theorem failed_preparation_is_cached (s : State σ ρ) (k : Key) (v : String) (spec spec' : σ)
+    (sys sys' : Option Nat) (c c' : Bool) (err : ρ) (hk : k.2 ≠ "") (hv : v ≠ "")
+    (hdiff : ∀ e, find? s.cache k = some e → e.version ≠ v) (hfail : prep k.1 k.2 spec = .failed err) :
+    let s' := (step prep s (.offer k (some v) spec sys c)).1
+    (step prep s' (.lookup k)).2 = .found (some (.failed err, s.calls)) ∧
+    step prep s' (.offer k (some v) spec' sys' c') = (s', .returned (.failed err) s.calls false) := by
+  intro s'
+  obtain ⟨_, _, h3, _⟩ := new_version_reprepared prep s k v spec sys c hk hv hdiff
+  have hfind : find? s'.cache k = some ⟨spec, .failed err, s.calls, v, sys⟩ := by rw [← hfail]; exact h3
+  refine ⟨by simp [step, hfind], ?_⟩
+  exact same_version_not_reprepared prep s' k v spec' sys' c' _ hk hv hfind rfl
+
 /-- the registry's answer never changes what is cached: an offer that raises `SubscriptionCycle`
     leaves exactly the state the same offer leaves when it succeeds -/
 theorem cycle_raise_still_caches (s : State σ ρ) (k : Key) (version : Option String) (spec : σ)
